@@ -1,4 +1,5 @@
 import JominiModel.Model.Basic
+import JominiModel.Generated.Tables
 /-
 Model of /repo/src/scalar.rs:168-338 (`to_bool`, `to_f64`, `to_i64`, `to_i64_t`,
 `to_u64`, `to_u64_t`, `to_u64_t2`, `overflow_mul_add`, `POWER_OF_TEN`).
@@ -60,26 +61,32 @@ def toU64 (d : Bytes) : Except Err Nat :=
       | .ok (r, left) => if left.isEmpty then .ok r else .error .allDigits
     else .error .allDigits
 
+/-- the tail shared by the three arms of `to_i64_t`: `to_u64_t2(data, start)`, then
+`i64::try_from(val)` (fails above `i64::MAX`), then `sign * val`. -/
+def toI64Go (data : Bytes) (sign : Int) (start : Nat) : Except Err (Int × Bytes) :=
+  match toU64T2 data start with
+  | .error e => .error e
+  | .ok (v, rest) =>
+    if v > I64_MAX then .error .overflow else .ok (sign * (v : Int), rest)
+
 /-- scalar.rs:249 `to_i64_t` -/
 def toI64T (d : Bytes) : Except Err (Int × Bytes) :=
   match d with
   | [] => .error .allDigits
   | c :: data =>
-    let go (sign : Int) (start : Nat) : Except Err (Int × Bytes) :=
-      match toU64T2 data start with
-      | .error e => .error e
-      | .ok (v, rest) =>
-        if v > I64_MAX then .error .overflow else .ok (sign * (v : Int), rest)
-    if isDigit c then go 1 (digitVal c)
-    else if c == 45 then go (-1) 0
-    else if c == 43 then go 1 0
+    if isDigit c then toI64Go data 1 (digitVal c)
+    else if c == 45 then toI64Go data (-1) 0
+    else if c == 43 then toI64Go data 1 0
     else .error .allDigits
 
-/-- scalar.rs:239 `to_i64` -/
-def toI64 (d : Bytes) : Except Err Int :=
-  match toI64T d with
+/-- the `if !left.is_empty() { Err(AllDigits) } else { Ok(r) }` of `to_i64` (with `?`). -/
+def requireEmpty (r : Except Err (Int × Bytes)) : Except Err Int :=
+  match r with
   | .error e => .error e
   | .ok (r, left) => if left.isEmpty then .ok r else .error .allDigits
+
+/-- scalar.rs:239 `to_i64` -/
+def toI64 (d : Bytes) : Except Err Int := requireEmpty (toI64T d)
 
 /-- scalar.rs:169 `to_bool` -/
 def toBool (d : Bytes) : Except Err Bool :=
@@ -93,6 +100,36 @@ def toBool (d : Bytes) : Except Err Bool :=
 /-- number of bits of `n` (0 for 0). -/
 def bitLen (n : Nat) : Nat := if n = 0 then 0 else n.log2 + 1
 
+/-- `num * 2^(-e)` divided by `den`: quotient, remainder and the divisor used
+(`num * 2^(-e) = q * d' + r`). -/
+def scaleQ (num den : Nat) (e : Int) : Nat × Nat × Nat :=
+  if e ≥ 0 then
+    let d' := den * 2 ^ e.toNat
+    (num / d', num % d', d')
+  else
+    let n' := num * 2 ^ (-e).toNat
+    (n' / den, n' % den, den)
+
+/-- first-guess quotient `q0 ∈ [2^51, 2^54)`: fix the exponent so that `q ∈ [2^52, 2^53)`. -/
+def normExp (q0 : Nat) (e0 : Int) : Int :=
+  if q0 ≥ 2^53 then e0 + 1 else if q0 < 2^52 then e0 - 1 else e0
+
+/-- clamp to the subnormal exponent. -/
+def clampExp (e : Int) : Int := if e < -1074 then -1074 else e
+
+/-- round half to even. -/
+def roundQ (q r d' : Nat) : Nat :=
+  if 2 * r > d' then q + 1 else if 2 * r = d' then (if q % 2 = 1 then q + 1 else q) else q
+
+/-- renormalise after a rounding carry and pack exponent and mantissa fields. -/
+def packBits (q : Nat) (e : Int) : Nat :=
+  let qe : Nat × Int := if q ≥ 2^53 then (q / 2, e + 1) else (q, e)
+  if qe.1 < 2^52 then qe.1 -- subnormal (biased exponent 0)
+  else
+    let biased : Int := qe.2 + 1075
+    if biased ≥ 2047 then 2047 * 2^52 -- infinity
+    else biased.toNat * 2^52 + (qe.1 - 2^52)
+
 /-- Round-to-nearest-even of the positive rational `num/den` (`den > 0`) to binary64,
 returned as the bit pattern without sign.  Only the normal range and zero are
 produced by the callers (values are either 0 or in `[1e-22, 2^64]`); subnormal and
@@ -102,91 +139,79 @@ def rneBits (num den : Nat) : Nat :=
   if num = 0 ∨ den = 0 then 0 else
   -- find e with 2^52 ≤ num/den / 2^e < 2^53 (approximately, then fix up)
   let e0 : Int := (bitLen num : Int) - (bitLen den : Int) - 53
-  -- scaled quotient q = floor(num / (den * 2^e)), remainder for rounding
-  let scale (e : Int) : Nat × Nat × Nat := -- (q, r, d') with num*2^-e = q*d' + r
-    if e ≥ 0 then
-      let d' := den * 2 ^ e.toNat
-      (num / d', num % d', d')
-    else
-      let n' := num * 2 ^ (-e).toNat
-      (n' / den, n' % den, den)
-  let (q0, _, _) := scale e0
-  -- q0 is in [2^51, 2^54); normalise so that q ∈ [2^52, 2^53)
-  let e : Int := if q0 ≥ 2^53 then e0 + 1 else if q0 < 2^52 then e0 - 1 else e0
-  -- clamp to subnormal exponent
-  let e : Int := if e < -1074 then -1074 else e
-  let (q, r, d') := scale e
-  -- round half to even
-  let q := if 2 * r > d' then q + 1 else if 2 * r = d' then (if q % 2 = 1 then q + 1 else q) else q
-  -- renormalise after carry
-  let (q, e) := if q ≥ 2^53 then (q / 2, e + 1) else (q, e)
-  if q < 2^52 then q -- subnormal (biased exponent 0)
-  else
-    let biased : Int := e + 1075
-    if biased ≥ 2047 then 2047 * 2^52 -- infinity
-    else biased.toNat * 2^52 + (q - 2^52)
+  let e : Int := clampExp (normExp (scaleQ num den e0).1 e0)
+  let s := scaleQ num den e
+  packBits (roundQ s.1 s.2.1 s.2.2) e
 
 /-- `n as f64` for a `u64` `n`. -/
 def u64ToF64 (n : Nat) : Nat := rneBits n 1
 
 def signBit : Nat := 2^63
 
+/-- exact integer value of a non-negative binary64 bit pattern whose value is an integer
+(what `(i as f64)` holds: an integer `≤ 2^64`). -/
+def decodeMag (fi : Nat) : Nat :=
+  if fi = 0 then 0 else
+    let be := fi / 2^52
+    let m := fi % 2^52 + 2^52
+    -- value = m * 2^(be - 1075), be ≥ 1075 - 52 here since value ≥ 1
+    if be ≥ 1075 then m * 2^(be - 1075) else m / 2^(1075 - be)
+
+/-- the `if left.is_empty()` arm of `to_f64`: a plain integer. -/
+def f64Int (negative : Bool) (lead : Nat) : Except Err Nat :=
+  if negative then
+    if lead > I64_MAX then .error .overflow
+    else if lead > F64_EXACT_MAX then .error .precisionLoss
+    else
+      -- `val as f64` for val = -lead (i64): magnitude rounded, sign set unless zero
+      .ok (if lead = 0 then 0 else signBit + u64ToF64 lead)
+  else
+    if lead > F64_EXACT_MAX then .error .precisionLoss
+    else .ok (u64ToF64 lead)
+
+/-- the `left[0] == b'.'` arm of `to_f64`; `frac` is what follows the point. -/
+def f64Frac (negative : Bool) (lead : Nat) (frac : Bytes) : Except Err Nat :=
+  let exponent := frac.length
+  match toU64T frac lead with
+  | .error e => .error e
+  | .ok (i, left2) =>
+    if !left2.isEmpty then .error .allDigits
+    else if exponent > Tables.maxFractionDigits then .error .overflow   -- `POWER_OF_TEN.get(exponent)`
+    else
+      -- (i as f64) / POWER_OF_TEN[exponent]; 10^k (k ≤ 22) is exact in binary64
+      let q := rneBits (decodeMag (u64ToF64 i)) (10 ^ exponent)
+      -- sign * d, sign = ±1.0 (exact); -0.0 when negative and d = 0
+      .ok (if negative then signBit + q else q)
+
+/-- what `to_f64` does once `(lead, left)` is known. -/
+def f64Tail (negative : Bool) (lead : Nat) (left : Bytes) : Except Err Nat :=
+  match left with
+  | [] => f64Int negative lead
+  | l0 :: frac => if l0 == 46 then f64Frac negative lead frac else .error .allDigits
+
+/-- the `let (lead, mut left) = if c.is_ascii_digit() … ` dispatch of `to_f64`; `dotLeft` is
+`if negative { &d[1..] } else { d }`. -/
+def f64Head (dotLeft : Bytes) (c : UInt8) (data : Bytes) : Except Err (Nat × Bytes) :=
+  if isDigit c then toU64T2 data (digitVal c)
+  else if c == 46 then .ok (0, dotLeft)
+  else if c == 43 then toU64T2 data 0
+  else .error .allDigits
+
+/-- `to_f64` after the optional minus sign has been taken off. -/
+def f64Body (negative : Bool) (dotLeft : Bytes) (c : UInt8) (data : Bytes) : Except Err Nat :=
+  match f64Head dotLeft c data with
+  | .error e => .error e
+  | .ok (lead, left) => f64Tail negative lead left
+
 /-- scalar.rs:179 `to_f64`; result is the f64 bit pattern. -/
 def toF64 (d : Bytes) : Except Err Nat :=
   match d with
   | [] => .error .allDigits
   | c0 :: data0 =>
-    let negative := c0 == 45
-    -- after the optional '-': current char `c`, rest `data`
-    let hd : Except Err (UInt8 × Bytes) :=
-      if negative then
-        match data0 with
-        | [] => .error .allDigits
-        | c1 :: data1 => .ok (c1, data1)
-      else .ok (c0, data0)
-    match hd with
-    | .error e => .error e
-    | .ok (c, data) =>
-      let leadLeft : Except Err (Nat × Bytes) :=
-        if isDigit c then toU64T2 data (digitVal c)
-        else if c == 46 then .ok (0, if negative then data0 else d)
-        else if c == 43 then toU64T2 data 0
-        else .error .allDigits
-      match leadLeft with
-      | .error e => .error e
-      | .ok (lead, left) =>
-        match left with
-        | [] =>
-          if negative then
-            if lead > I64_MAX then .error .overflow
-            else if lead > F64_EXACT_MAX then .error .precisionLoss
-            else
-              -- `val as f64` for val = -lead (i64): magnitude rounded, sign set unless zero
-              .ok (if lead = 0 then 0 else signBit + u64ToF64 lead)
-          else
-            if lead > F64_EXACT_MAX then .error .precisionLoss
-            else .ok (u64ToF64 lead)
-        | l0 :: frac =>
-          if l0 == 46 then
-            let exponent := frac.length
-            match toU64T frac lead with
-            | .error e => .error e
-            | .ok (i, left2) =>
-              if !left2.isEmpty then .error .allDigits
-              else if exponent ≥ 23 then .error .overflow
-              else
-                -- (i as f64) / POWER_OF_TEN[exponent]; 10^k (k ≤ 22) is exact in binary64
-                let fi := u64ToF64 i
-                -- decode fi back to an exact integer value (it is an integer ≤ 2^64)
-                let mag : Nat :=
-                  if fi = 0 then 0 else
-                    let be := fi / 2^52
-                    let m := fi % 2^52 + 2^52
-                    -- value = m * 2^(be - 1075), be ≥ 1075 - 52 here since value ≥ 1
-                    if be ≥ 1075 then m * 2^(be - 1075) else m / 2^(1075 - be)
-                let q := rneBits mag (10 ^ exponent)
-                -- sign * d, sign = ±1.0 (exact); -0.0 when negative and d = 0
-                .ok (if negative then signBit + q else q)
-          else .error .allDigits
+    if c0 == 45 then
+      match data0 with
+      | [] => .error .allDigits
+      | c1 :: data1 => f64Body true data0 c1 data1
+    else f64Body false d c0 data0
 
 end Jomini.Scalar
